@@ -259,10 +259,23 @@ func c13Once(c *mon.Ctx) {
 
 // c13LibPass checks, on the live registry as it is NOW, that every listed name is usable as include and
 // exclude name and every listed source is accepted by the parsers and selects exactly its lints.
-func c13LibPass(c *mon.Ctx, when string) {
+func c13LibPass(c *mon.Ctx, when string, added ...string) {
 	g := lint.GlobalRegistry()
 	inv := mon.Inventory(g)
 	names := g.Names()
+	have := map[string]bool{}
+	for _, n := range names {
+		have[n] = true
+	}
+	for _, a := range added { // what the harness itself registered must be listed and selectable
+		if !have[a] {
+			c.V("added-lint-not-listed|"+when, fmt.Sprintf("%s: lint %s was registered but Names() does not list it", when, a), a, nil, nil)
+		}
+		r, err := g.Filter(lint.FilterOptions{IncludeNames: []string{a}})
+		if err != nil || r == nil || len(mon.Inventory(r)) != 1 {
+			c.V("added-lint-not-selectable|"+when, fmt.Sprintf("%s: registered lint %s cannot be selected by name: %v", when, a, err), a, nil, nil)
+		}
+	}
 	if len(inv) != len(names) {
 		c.V("listing-vs-lookup|"+when, fmt.Sprintf("%s: Names() lists %d names but only %d are found by the per-kind lookups", when, len(names), len(inv)), "", nil, nil)
 	}
@@ -329,9 +342,10 @@ func c13Solo(c *mon.Ctx) {
 			lint.RegisterLint(&lint.Lint{Name: "e_verif_added_legacy", Description: "verif addition", Citation: "verif", Source: lint.EtsiEsi, Lint: func() lint.LintInterface { return probeCert{} }})
 		}},
 	}
-	for _, st := range steps {
+	addedNames := []string{"e_verif_added_ocsp", "w_verif_added_crl", "n_verif_added_cert", "e_verif_added_ocsp2", "e_verif_added_legacy"}
+	for k, st := range steps {
 		st.do()
-		c13LibPass(c, st.what)
+		c13LibPass(c, st.what, addedNames[:k+1]...)
 	}
 }
 
